@@ -180,6 +180,8 @@ def wf_moves(tr):
             b = w['state']
             if a is not None and a != b:
                 ok = (a, b) in WF_MOVES or (rerun and (a, b) in WF_RERUN_MOVES)
+                if desc[0] == 'op' and desc[1] == 'resume' and a == 'PAUSED' and ('RUNNING', b) in WF_MOVES:
+                    ok = True     # two compare-and-swaps in the resume transaction: PAUSED->RUNNING->verdict
                 # creation: a fresh execution appears already RUNNING (IDLE->RUNNING in one tx)
                 if w['ord'] not in prev:
                     ok = b in ('RUNNING', 'IDLE') or (('RUNNING', b) in WF_MOVES)
@@ -303,7 +305,7 @@ def join_checks(tr, prog):
             if len(rows) > 1 and not prog.get('cyclic'):
                 bad.append({'join': name, 'what': 'more than one execution of a join', 'event': desc})
             for r in rows:
-                if last_state.get(r['ord'], 'WAITING') == 'WAITING' and r['state'] != 'WAITING':
+                if last_state.get(r['ord'], 'WAITING') == 'WAITING' and r['state'] == 'RUNNING':
                     starts[r['ord']] = starts.get(r['ord'], 0) + 1
                     if starts[r['ord']] == 2 and not prog.get('cyclic'):
                         bad.append({'join': name, 'what': 'join started more than once', 'event': desc})
